@@ -73,6 +73,32 @@ class Grammar(object):
         self.memo[key] = out
         return out
 
+    def count_exact(self, nt, n, _memo=None):
+        """number of trees of size exactly n, without building them"""
+        if _memo is None:
+            _memo = self.__dict__.setdefault("cmemo", {})
+        key = (nt, n)
+        r = _memo.get(key)
+        if r is not None:
+            return r
+        total = 0
+        for ast, hs in self.rules[nt]:
+            k = len(hs)
+            if k == 0:
+                total += 1 if n == 1 else 0
+                continue
+            if n - 1 < k:
+                continue
+            for split in _compositions(n - 1, k):
+                p = 1
+                for h, s in zip(hs, split):
+                    p *= self.count_exact(h, s, _memo)
+                    if p == 0:
+                        break
+                total += p
+        _memo[key] = total
+        return total
+
     def upto(self, nt, n):
         out = []
         for i in range(1, n + 1):
